@@ -8,7 +8,15 @@ import (
 // constructor is exported, so no hook is needed: crash = fresh instance, snapshot = the entries
 // of the one controller key the scenarios use.
 
-func expKeys() []string { return []string{NS + "/" + RolloutName, NS + "/" + RolloutName + "-b"} }
+var knownNS = []string{DefaultNS}
+
+func expKeys() []string {
+	var out []string
+	for _, ns := range knownNS {
+		out = append(out, ns+"/"+RolloutName, ns+"/"+RolloutName+"-b")
+	}
+	return out
+}
 
 func resetResourceExpectations() {
 	expectations.ResourceExpectations = expectations.NewResourceExpectations()
